@@ -156,6 +156,18 @@ def run(ctx):
             stack.extend(node.children)
             if type(node).__name__ not in ("NoneItem",) or True:
                 nd = common.dump_tree(node)
+                if rng.random() < 0.15 and getattr(type(node), "_children_attrs", None):
+                    # the documented way to clone with a replacement (`clone_item(expr=new_child)`): it must give
+                    # that child to this clone only, later plain clones still get placeholders (seeded C09-G)
+                    attr = rng.choice(list(type(node)._children_attrs))
+                    secret = I.tree.Word("secret")
+                    try:
+                        ck = node.clone_item(**{attr: secret})
+                        if getattr(ck, attr) is not secret:
+                            ctx.fail("clone_item(%s=child) does not carry the given child" % attr, {"node": nd})
+                    except Exception as e:
+                        ctx.fail("clone_item(%s=child) raised %s" % (attr, type(e).__name__), {"node": nd})
+                    ctx.count("clone with a keyword override")
                 c = node.clone_item()
                 cd = common.dump_tree(c)
                 clone_reqs.append((nd, cd))
